@@ -319,8 +319,21 @@ func damagePayload(t *sim.Tape, stream []byte, parsed *model.Stream, res *Result
 			model.SetBits(stream, pos, w, uint64(t.Intn(256))>>(8-uint(w)))
 			res.Faults["store.subst"]++
 		default:
-			// swap two payload bytes of the same block
-			if b.PayloadLen >= 32 {
+			// swap two payload bytes of the same block; a third of the time two NEIGHBOURING bytes
+			// aligned with the block body, half of those at its very end (a transposition is the
+			// damage an order-insensitive checksum step would miss)
+			if body := b.EndPos - b.BodyPos; body >= 32 && t.Intn(3) == 0 {
+				k := t.Intn(body/8 - 1)
+				if t.Intn(2) == 0 {
+					k = body/8 - 2 - t.Intn(min(3, body/8-1))
+				}
+				p1 := b.BodyPos + 8*k
+				p2 := p1 + 8
+				v1, v2 := model.GetBits(stream, p1, 8), model.GetBits(stream, p2, 8)
+				model.SetBits(stream, p1, 8, v2)
+				model.SetBits(stream, p2, 8, v1)
+				res.Faults["store.swap.adjacent"]++
+			} else if b.PayloadLen >= 32 {
 				p1 := b.PayloadPos + t.Intn(b.PayloadLen-8)
 				p2 := b.PayloadPos + t.Intn(b.PayloadLen-8)
 				v1, v2 := model.GetBits(stream, p1, 8), model.GetBits(stream, p2, 8)
